@@ -1,5 +1,1496 @@
 /-
-C09 — property theorems (stub; nothing proved yet).
+C09 — thermodynamic queries are pure: history, caching, batching change nothing; the composition
+cache of the diffusion models is sound.
+
+Property theorems about three hand models tied to /repo by tools/corr/C09.py:
+  `KawinV.HashCache`   (HashTable of kawin/diffusion/DiffusionParameters.py),
+  `KawinV.Broadcast`   (kawin/thermo/utils.py broadcasting + how array queries are assembled),
+  `KawinV.CompSetCache` (cache state machine of kawin/thermo/Thermodynamics.py, MultiTherm.py,
+                         LocalEquilibrium.py with pycalphad as a parameter).
+Theorems about `Cfg.fixed` speak about the repaired code; the `shipped_…` theorems prove, on concrete
+witnesses, that the same clauses were false of the shipped code (see known_findings.txt).
 -/
+import KawinV.Model.HashCache
+import KawinV.Model.Broadcast
+import KawinV.Model.CompSetCache
+import Mathlib.Data.List.Induction
+import Mathlib.Tactic.NormNum
+import Mathlib.Tactic.Linarith
+
+set_option linter.unusedSectionVars false
+set_option linter.unusedVariables false
+set_option linter.unusedSimpArgs false
+set_option linter.unusedDecidableInType false
+
 namespace KawinV.Props.C09
+
+/-! ## 1. the composition cache of the diffusion models (HashTable) -/
+section hash
+open KawinV.HashCache
+
+variable {α κ ν : Type} [DecidableEq κ]
+
+/-- operations that empty the table (in the repaired code `setHashSensitivity` is one of them) -/
+def isReset : Op α ν → Bool
+  | .clear => true
+  | .setSens _ => true
+  | _ => false
+
+theorem lookup_mem {k : κ} {v : ν} : ∀ {l : List (κ × ν)}, lookup k l = some v → (k, v) ∈ l
+  | [], h => by simp [lookup] at h
+  | (k', v') :: r, h => by
+    unfold lookup at h
+    split at h
+    · next hk => cases h; subst hk; exact List.mem_cons_self
+    · exact List.mem_cons_of_mem _ (lookup_mem h)
+
+theorem run_snoc (cfg : Cfg) (key : Nat → List α → α → κ) (t : Table κ ν) (ops : List (Op α ν)) (o : Op α ν) :
+    run cfg key t (ops ++ [o]) = step cfg key (run cfg key t ops) o := by
+  simp [run, List.foldl_append]
+
+/-- no reset among the operations: the sensitivity is what it was -/
+theorem sens_of_no_reset (key : Nat → List α → α → κ) (t : Table κ ν) :
+    ∀ ops : List (Op α ν), (∀ o ∈ ops, isReset o = false) → (run Cfg.fixed key t ops).sens = t.sens := by
+  intro ops
+  induction ops using List.reverseRecOn with
+  | nil => intro _; rfl
+  | append_singleton l o ih =>
+    intro h
+    rw [run_snoc]
+    have hl : ∀ o' ∈ l, isReset o' = false := fun o' ho' => h o' (List.mem_append_left _ ho')
+    have ho : isReset o = false := h o (by simp)
+    rw [← ih hl]
+    cases o <;> simp [step, isReset] at ho ⊢
+    split <;> rfl
+
+/-- provenance of every entry: it was put there by an `add` executed while caching was on, its key is
+the key of that `add` at the sensitivity in force then, and nothing has emptied the table or changed
+the sensitivity since. -/
+theorem entry_provenance (key : Nat → List α → α → κ) (ops : List (Op α ν)) :
+    ∀ k v, (k, v) ∈ (run Cfg.fixed key (init : Table κ ν) ops).data →
+      ∃ pre x' T' post, ops = pre ++ Op.add x' T' v :: post ∧
+        key (run Cfg.fixed key (init : Table κ ν) pre).sens x' T' = k ∧
+        (run Cfg.fixed key (init : Table κ ν) pre).flag = true ∧
+        ∀ o ∈ post, isReset o = false := by
+  induction ops using List.reverseRecOn with
+  | nil => intro k v h; simp [run, init] at h
+  | append_singleton l o ih =>
+    intro k v h
+    rw [run_snoc] at h
+    -- an entry that was already there before `o`, and `o` is not a reset
+    have old : (k, v) ∈ (run Cfg.fixed key (init : Table κ ν) l).data → isReset o = false →
+        ∃ pre x' T' post, l ++ [o] = pre ++ Op.add x' T' v :: post ∧
+          key (run Cfg.fixed key (init : Table κ ν) pre).sens x' T' = k ∧
+          (run Cfg.fixed key (init : Table κ ν) pre).flag = true ∧
+          ∀ o ∈ post, isReset o = false := by
+      intro hm ho
+      obtain ⟨pre, x', T', post, hl, hk, hf, hp⟩ := ih k v hm
+      refine ⟨pre, x', T', post ++ [o], by simp [hl], hk, hf, ?_⟩
+      intro o' ho'
+      rcases List.mem_append.mp ho' with h1 | h1
+      · exact hp o' h1
+      · simp at h1; subst h1; exact ho
+    cases o with
+    | enable b => exact old (by simpa [step] using h) rfl
+    | clear => simp [step] at h
+    | setSens s => simp [step, Cfg.fixed] at h
+    | retrieve x T => exact old (by simpa [step] using h) rfl
+    | add x T w =>
+      simp only [step] at h
+      split at h
+      · next hon =>
+        simp only [List.mem_cons, Prod.mk.injEq] at h
+        rcases h with ⟨hk, hv⟩ | h
+        · subst hv
+          refine ⟨l, x, T, [], by simp, hk.symm, ?_, by simp⟩
+          simpa [isOn, Cfg.fixed] using hon
+        · exact old h rfl
+      · exact old h rfl
+
+/-- **reuse only on equal key** (repaired code, every key function, every operation sequence):
+`retrieve` returns `some v` only if an earlier `add`, executed while caching was on, stored `v` under
+the same key at the same sensitivity, and neither `clearCache` nor `setHashSensitivity` ran since. -/
+theorem reuse_only_on_equal_key (key : Nat → List α → α → κ) (ops : List (Op α ν))
+    (x : List α) (T : α) (v : ν)
+    (h : retrieve Cfg.fixed key (run Cfg.fixed key (init : Table κ ν) ops) x T = some v) :
+    ∃ pre x' T' post, ops = pre ++ Op.add x' T' v :: post ∧
+      (run Cfg.fixed key (init : Table κ ν) pre).sens = (run Cfg.fixed key (init : Table κ ν) ops).sens ∧
+      key (run Cfg.fixed key (init : Table κ ν) pre).sens x' T'
+        = key (run Cfg.fixed key (init : Table κ ν) ops).sens x T ∧
+      (run Cfg.fixed key (init : Table κ ν) pre).flag = true ∧
+      ∀ o ∈ post, isReset o = false := by
+  unfold retrieve at h
+  split at h
+  · obtain ⟨pre, x', T', post, hl, hk, hf, hp⟩ := entry_provenance key ops _ v (lookup_mem h)
+    refine ⟨pre, x', T', post, hl, ?_, hk, hf, hp⟩
+    subst hl
+    have : run Cfg.fixed key (init : Table κ ν) (pre ++ Op.add x' T' v :: post)
+        = run Cfg.fixed key (step Cfg.fixed key (run Cfg.fixed key (init : Table κ ν) pre) (Op.add x' T' v)) post := by
+      simp [run, List.foldl_append]
+    rw [this, sens_of_no_reset key _ post hp]
+    simp only [step]; split <;> rfl
+  · cases h
+
+/-- **switch off, retrieve**: with caching off nothing is returned -/
+theorem off_retrieve (key : Nat → List α → α → κ) (t : Table κ ν) (h : t.flag = false) (x : List α) (T : α) :
+    retrieve Cfg.fixed key t x T = none := by
+  simp [retrieve, isOn, Cfg.fixed, h]
+
+/-- **switch off, add**: with caching off `add` changes nothing -/
+theorem off_add (key : Nat → List α → α → κ) (t : Table κ ν) (h : t.flag = false) (x : List α) (T : α) (v : ν) :
+    step Cfg.fixed key t (Op.add x T v) = t := by
+  simp [step, isOn, Cfg.fixed, h]
+
+/-- **switch off, whole histories**: after `enableCaching(False)`, as long as caching is not switched
+on again, every `retrieve` answers `none` and the stored data never changes except by being emptied. -/
+theorem switch_off (key : Nat → List α → α → κ) (t : Table κ ν) :
+    ∀ ops : List (Op α ν), (∀ o ∈ ops, o ≠ Op.enable true) →
+      outputs Cfg.fixed key (step Cfg.fixed key t (Op.enable false)) ops = ops.map (fun _ => none) ∧
+      (run Cfg.fixed key (step Cfg.fixed key t (Op.enable false)) ops).flag = false ∧
+      ((run Cfg.fixed key (step Cfg.fixed key t (Op.enable false)) ops).data = t.data ∨
+       (run Cfg.fixed key (step Cfg.fixed key t (Op.enable false)) ops).data = []) := by
+  suffices H : ∀ (ops : List (Op α ν)) (u : Table κ ν), u.flag = false → (∀ o ∈ ops, o ≠ Op.enable true) →
+      outputs Cfg.fixed key u ops = ops.map (fun _ => none) ∧
+      (run Cfg.fixed key u ops).flag = false ∧
+      ((run Cfg.fixed key u ops).data = u.data ∨ (run Cfg.fixed key u ops).data = []) by
+    intro ops h
+    exact H ops _ (by simp [step]) h
+  intro ops
+  induction ops with
+  | nil => intro u hu _; simp [outputs, run, hu]
+  | cons o r ih =>
+    intro u hu h
+    have hr : ∀ o' ∈ r, o' ≠ Op.enable true := fun o' ho' => h o' (List.mem_cons_of_mem _ ho')
+    have ho : o ≠ Op.enable true := h o List.mem_cons_self
+    have hstep : (step Cfg.fixed key u o).flag = false ∧
+        ((step Cfg.fixed key u o).data = u.data ∨ (step Cfg.fixed key u o).data = []) := by
+      cases o with
+      | enable b => cases b <;> simp_all [step]
+      | clear => simp [step, hu]
+      | setSens s => simp [step, hu, Cfg.fixed]
+      | add x T v => rw [off_add key u hu]; simp [hu]
+      | retrieve x T => simp [step, hu]
+    have hout : output Cfg.fixed key u o = none := by
+      cases o <;> simp [output, off_retrieve key u hu]
+    obtain ⟨h1, h2, h3⟩ := ih (step Cfg.fixed key u o) hstep.1 hr
+    refine ⟨by simp [outputs, hout, h1], by simpa [run] using h2, ?_⟩
+    have : run Cfg.fixed key u (o :: r) = run Cfg.fixed key (step Cfg.fixed key u o) r := by simp [run]
+    rw [this]
+    rcases h3 with h3 | h3
+    · rcases hstep.2 with h4 | h4
+      · left; rw [h3, h4]
+      · right; rw [h3, h4]
+    · right; exact h3
+
+/-! ### the idiom "retrieve, else compute and add" is sound -/
+
+/-- every stored value is `f` of some argument whose key (at the current sensitivity) is the stored key -/
+def Sound (key : Nat → List α → α → κ) (f : List α → α → ν) (t : Table κ ν) : Prop :=
+  ∀ k v, (k, v) ∈ t.data → ∃ x' T', v = f x' T' ∧ key t.sens x' T' = k
+
+theorem sound_init (key : Nat → List α → α → κ) (f : List α → α → ν) : Sound key f (init : Table κ ν) := by
+  intro k v h; simp [init] at h
+
+theorem sound_ctl (key : Nat → List α → α → κ) (f : List α → α → ν) (t : Table κ ν) (h : Sound key f t)
+    (o : Op α ν) (ho : ∀ x T v, o ≠ Op.add x T v) : Sound key f (step Cfg.fixed key t o) := by
+  cases o with
+  | enable b => simpa [step, Sound] using h
+  | clear => intro k v hm; simp [step] at hm
+  | setSens s => intro k v hm; simp [step, Cfg.fixed] at hm
+  | retrieve x T => simpa [step, Sound] using h
+  | add x T v => exact absurd rfl (ho x T v)
+
+/-- one cached query: the value returned is `f` at an argument with the SAME key as the one asked for
+(at the configured sensitivity) — and the table stays sound. -/
+theorem cachedQuery_sound (key : Nat → List α → α → κ) (f : List α → α → ν) (t : Table κ ν)
+    (h : Sound key f t) (x : List α) (T : α) :
+    (∃ x' T', (cachedQuery Cfg.fixed key f t x T).1 = f x' T' ∧ key t.sens x' T' = key t.sens x T) ∧
+    Sound key f (cachedQuery Cfg.fixed key f t x T).2 := by
+  unfold cachedQuery
+  split
+  · next v hv =>
+    refine ⟨?_, h⟩
+    unfold retrieve at hv
+    split at hv
+    · obtain ⟨x', T', h1, h2⟩ := h _ v (lookup_mem hv)
+      exact ⟨x', T', h1, h2⟩
+    · cases hv
+  · refine ⟨⟨x, T, rfl, rfl⟩, ?_⟩
+    simp only [step]
+    split
+    · intro k v hm
+      simp only [List.mem_cons, Prod.mk.injEq] at hm
+      rcases hm with ⟨hk, hv⟩ | hm
+      · exact ⟨x, T, hv, hk.symm⟩
+      · exact h k v hm
+    · exact h
+
+/-- with caching off a cached query is exactly the computation -/
+theorem cachedQuery_off (key : Nat → List α → α → κ) (f : List α → α → ν) (t : Table κ ν)
+    (h : t.flag = false) (x : List α) (T : α) :
+    cachedQuery Cfg.fixed key f t x T = (f x T, t) := by
+  simp [cachedQuery, off_retrieve key t h, off_add key t h]
+
+theorem runEvs_sound (key : Nat → List α → α → κ) (f : List α → α → ν) :
+    ∀ (evs : List (Ev α)) (t : Table κ ν), Sound key f t → Sound key f (runEvs Cfg.fixed key f t evs).1 := by
+  intro evs
+  induction evs with
+  | nil => intro t h; simpa [runEvs] using h
+  | cons e r ih =>
+    intro t h
+    cases e with
+    | query x T => simpa [runEvs] using ih _ (cachedQuery_sound key f t h x T).2
+    | enable b => simpa [runEvs] using ih _ (sound_ctl key f t h (Op.enable b) (by intros; simp))
+    | clear => simpa [runEvs] using ih _ (sound_ctl key f t h Op.clear (by intros; simp))
+    | setSens s => simpa [runEvs] using ih _ (sound_ctl key f t h (Op.setSens s) (by intros; simp))
+
+/-- **the diffusion cache is sound, for every history** of control calls (enable/disable, clear,
+change of sensitivity) and queries: the next query at (x, T) returns `f` evaluated at some (x', T')
+that has the same key as (x, T) at the configured sensitivity; with caching off it returns `f x T`. -/
+theorem cache_sound_after_any_history (key : Nat → List α → α → κ) (f : List α → α → ν)
+    (evs : List (Ev α)) (x : List α) (T : α) :
+    let t := (runEvs Cfg.fixed key f (init : Table κ ν) evs).1
+    (∃ x' T', (cachedQuery Cfg.fixed key f t x T).1 = f x' T' ∧ key t.sens x' T' = key t.sens x T) ∧
+    (t.flag = false → (cachedQuery Cfg.fixed key f t x T).1 = f x T) := by
+  intro t
+  refine ⟨(cachedQuery_sound key f t (runEvs_sound key f evs _ (sound_init key f)) x T).1, ?_⟩
+  intro h; rw [cachedQuery_off key f t h]
+
+/-! ### the integer key -/
+
+/-- the W-bit cast is the identity on representable values -/
+theorem castBits_id (w : Nat) (z : Int) (h : -(2 ^ (w - 1) : Int) ≤ z ∧ z < (2 ^ (w - 1) : Int)) :
+    castBits w (some z) = z := by
+  simp [castBits, h]
+
+/-- int64 covers every `|v·10^s| ≤ B·10^s` with `B·10^s < 2^63`
+(e.g. B = 9 000 000 K and s = 12, see the example below) -/
+theorem int64_covers (B s : Nat) (hB : B * 10 ^ s < 2 ^ 63) (z : Int) (hz : z.natAbs ≤ B * 10 ^ s) :
+    castBits 64 (some z) = z := by
+  apply castBits_id
+  have h1 : z.natAbs < 2 ^ 63 := lt_of_le_of_lt hz hB
+  simp only [show (64 - 1 : Nat) = 63 by rfl]
+  constructor <;> omega
+
+example : 9000000 * 10 ^ 12 < 2 ^ 63 := by norm_num
+
+section faithful
+variable {β : Type} [KeyScalar β]
+
+/-- all components representable in W bits -/
+def InRange (w s : Nat) (x : List β) (T : β) : Prop :=
+  ∀ o ∈ keyExact s x T, ∃ z, o = some z ∧ -(2 ^ (w - 1) : Int) ≤ z ∧ z < (2 ^ (w - 1) : Int)
+
+theorem keyCast_eq_map (w s : Nat) (x : List β) (T : β) :
+    keyCast w s x T = (keyExact s x T).map (castBits w) := by
+  simp [keyCast, keyExact, List.map_map, Function.comp_def]
+
+theorem map_castBits_inj (w : Nat) : ∀ (a b : List (Option Int)),
+    (∀ o ∈ a, ∃ z, o = some z ∧ -(2 ^ (w - 1) : Int) ≤ z ∧ z < (2 ^ (w - 1) : Int)) →
+    (∀ o ∈ b, ∃ z, o = some z ∧ -(2 ^ (w - 1) : Int) ≤ z ∧ z < (2 ^ (w - 1) : Int)) →
+    a.map (castBits w) = b.map (castBits w) → a = b
+  | [], [], _, _, _ => rfl
+  | [], _ :: _, _, _, h => by simp at h
+  | _ :: _, [], _, _, h => by simp at h
+  | p :: a, q :: b, ha, hb, h => by
+    simp only [List.map_cons, List.cons.injEq] at h
+    obtain ⟨zp, rfl, hp⟩ := ha p List.mem_cons_self
+    obtain ⟨zq, rfl, hq⟩ := hb q List.mem_cons_self
+    rw [castBits_id w zp hp, castBits_id w zq hq] at h
+    rw [h.1, map_castBits_inj w a b (fun o ho => ha o (List.mem_cons_of_mem _ ho))
+      (fun o ho => hb o (List.mem_cons_of_mem _ ho)) h.2]
+
+/-- **the cast key is faithful inside the representable range**: two arguments whose scaled
+components all fit into W bits get the same W-bit key iff they round to the same (unbounded) key. -/
+theorem keyCast_faithful (w s : Nat) (x x' : List β) (T T' : β)
+    (h : InRange w s x T) (h' : InRange w s x' T') :
+    keyCast w s x T = keyCast w s x' T' ↔ keyExact s x T = keyExact s x' T' := by
+  rw [keyCast_eq_map, keyCast_eq_map]
+  exact ⟨map_castBits_inj w _ _ h h', fun e => by rw [e]⟩
+
+end faithful
+
+/-! ### witnesses: the shipped code violated the clauses (exact decimal scalars, evaluated by `decide`) -/
+
+/-- D-C09-int32: at sensitivity 10 the int32 keys of (x = 0.3, T = 1000) and (x = 0.9, T = 1500)
+coincide (every component collapses to −2³¹) although the two do not round to the same key. -/
+theorem shipped_int32_collision :
+    keyCast 32 10 [(⟨3, 1⟩ : Dec)] ⟨1000, 0⟩ = keyCast 32 10 [(⟨9, 1⟩ : Dec)] ⟨1500, 0⟩ ∧
+    keyExact 10 [(⟨3, 1⟩ : Dec)] ⟨1000, 0⟩ ≠ keyExact 10 [(⟨9, 1⟩ : Dec)] ⟨1500, 0⟩ := by
+  decide
+
+/-- … so the shipped table hands the value stored for (0.3, 1000) to a query at (0.9, 1500) … -/
+theorem shipped_int32_wrong_reuse :
+    outputs Cfg.shipped (keyCast 32) (init : Table (List Int) Nat)
+      [Op.setSens 10, Op.add [(⟨3, 1⟩ : Dec)] ⟨1000, 0⟩ 7, Op.retrieve [(⟨9, 1⟩ : Dec)] ⟨1500, 0⟩]
+      = [none, none, some 7] := by
+  decide
+
+/-- … while the repaired key (int64) keeps them apart. -/
+theorem fixed_int64_no_reuse :
+    outputs Cfg.fixed (keyCast 64) (init : Table (List Int) Nat)
+      [Op.setSens 10, Op.add [(⟨3, 1⟩ : Dec)] ⟨1000, 0⟩ 7, Op.retrieve [(⟨9, 1⟩ : Dec)] ⟨1500, 0⟩]
+      = [none, none, none] := by
+  decide
+
+/-- what remains after the repair: beyond 2⁶³ (here T·10¹⁶ ≥ 10¹⁹) the int64 cast collapses too -/
+theorem int64_residual_collision :
+    keyCast 64 16 [(⟨3, 1⟩ : Dec)] ⟨1000, 0⟩ = keyCast 64 16 [(⟨3, 1⟩ : Dec)] ⟨1500, 0⟩ ∧
+    keyExact 16 [(⟨3, 1⟩ : Dec)] ⟨1000, 0⟩ ≠ keyExact 16 [(⟨3, 1⟩ : Dec)] ⟨1500, 0⟩ := by
+  decide
+
+/-- D-C09-cache-off: in the shipped code `enableCaching(False)` did not switch the cache off -/
+theorem shipped_cannot_switch_off :
+    outputs Cfg.shipped (keyCast 32) (init : Table (List Int) Nat)
+      [Op.enable false, Op.add [(⟨3, 1⟩ : Dec)] ⟨1000, 0⟩ 7, Op.retrieve [(⟨3, 1⟩ : Dec)] ⟨1000, 0⟩]
+      = [none, none, some 7] := by
+  decide
+
+/-- D-C09-sens-stale: the shipped `setHashSensitivity` kept the old entries, so a value stored for
+(x = 0.3, T = 2000) at sensitivity 0 was returned for (x = 0.05, T = 200) at sensitivity 1, although
+at the configured sensitivity 1 the two have different keys. -/
+theorem shipped_sensitivity_stale :
+    outputs Cfg.shipped (keyCast 64) (init : Table (List Int) Nat)
+      [Op.setSens 0, Op.add [(⟨3, 1⟩ : Dec)] ⟨2000, 0⟩ 7, Op.setSens 1, Op.retrieve [(⟨5, 2⟩ : Dec)] ⟨200, 0⟩]
+      = [none, none, none, some 7] ∧
+    keyExact 1 [(⟨3, 1⟩ : Dec)] ⟨2000, 0⟩ ≠ keyExact 1 [(⟨5, 2⟩ : Dec)] ⟨200, 0⟩ := by
+  decide
+
+/-- the repaired code on the same sequence -/
+theorem fixed_sensitivity_fresh :
+    outputs Cfg.fixed (keyCast 64) (init : Table (List Int) Nat)
+      [Op.setSens 0, Op.add [(⟨3, 1⟩ : Dec)] ⟨2000, 0⟩ 7, Op.setSens 1, Op.retrieve [(⟨5, 2⟩ : Dec)] ⟨200, 0⟩]
+      = [none, none, none, none] := by
+  decide
+
+/-- non-vacuity: a hit does occur (same key, caching on) -/
+example :
+    outputs Cfg.fixed (keyCast 64) (init : Table (List Int) Nat)
+      [Op.add [(⟨30001, 5⟩ : Dec)] ⟨1000, 0⟩ 7, Op.retrieve [(⟨30004, 5⟩ : Dec)] ⟨1000, 0⟩]
+      = [none, some 7] := by
+  decide
+
+end hash
+
+/-! ## 2. batching: the broadcasting helpers and the assembly of array queries -/
+section broadcast
+open KawinV.Broadcast
+
+variable {α β γ ρ : Type}
+
+/-- **equal lengths pass unchanged** -/
+theorem matchLengths_eq (a : List β) (b : List γ) (h : a.length = b.length) :
+    matchLengths a b = .ok (a, b) := by
+  simp [matchLengths, h]
+
+/-- **a singleton first argument is repeated** to the length of the second -/
+theorem matchLengths_left (a0 : β) (b : List γ) (h : b.length ≠ 1) :
+    matchLengths [a0] b = .ok (List.replicate b.length a0, b) := by
+  have : ¬ ([a0].length = b.length) := by simpa using fun e => h e.symm
+  unfold matchLengths
+  rw [if_neg this]
+
+/-- **a singleton second argument is repeated** to the length of the first -/
+theorem matchLengths_right (a : List β) (b0 : γ) (h : a.length ≠ 1) :
+    matchLengths a [b0] = .ok (a, List.replicate a.length b0) := by
+  unfold matchLengths
+  have h1 : ¬ (a.length = [b0].length) := by simpa using h
+  rw [if_neg h1]
+  match a, h with
+  | [], _ => rfl
+  | [_], h => simp at h
+  | _ :: _ :: _, _ => rfl
+
+/-- **unequal lengths, neither a singleton: rejected** — and only then -/
+theorem matchLengths_error_iff (a : List β) (b : List γ) :
+    (∃ e, matchLengths a b = .error e) ↔ a.length ≠ b.length ∧ a.length ≠ 1 ∧ b.length ≠ 1 := by
+  unfold matchLengths
+  by_cases h : a.length = b.length
+  · simp [h]
+  · rw [if_neg h]
+    match a, b, h with
+    | [a0], b, h => simp
+    | [], [b0], h => simp
+    | a0 :: a1 :: r, [b0], h => simp
+    | [], [], h => simp at h
+    | [], b0 :: b1 :: r, h => simp
+    | a0 :: a1 :: r, [], h => simp
+    | a0 :: a1 :: r, b0 :: b1 :: r', h => simpa using h
+
+/-- **broadcasting yields equal lengths** -/
+theorem matchLengths_lengths (a : List β) (b : List γ) (a' : List β) (b' : List γ)
+    (h : matchLengths a b = .ok (a', b')) : a'.length = b'.length := by
+  unfold matchLengths at h
+  by_cases e : a.length = b.length
+  · rw [if_pos e] at h; cases h; exact e
+  · rw [if_neg e] at h
+    match a, b, e, h with
+    | [a0], b, e, h => simp at h; obtain ⟨rfl, rfl⟩ := h; simp
+    | [], [b0], e, h => simp at h; obtain ⟨rfl, rfl⟩ := h; simp
+    | a0 :: a1 :: r, [b0], e, h => simp at h; obtain ⟨rfl, rfl⟩ := h; simp
+    | [], [], e, h => simp at e
+    | [], b0 :: b1 :: r, e, h => simp at h
+    | a0 :: a1 :: r, [], e, h => simp at h
+    | a0 :: a1 :: r, b0 :: b1 :: r', e, h => simp at h
+
+theorem processXT_lengths (x T : Arg α) (bin : Bool) (xs : List (List α)) (Ts : List α)
+    (h : processXT x T bin = .ok (xs, Ts)) : xs.length = Ts.length := by
+  unfold processXT at h
+  cases hT : atleast1d T with
+  | error e => simp [hT, bind, Except.bind] at h
+  | ok T1 =>
+    simp only [hT, bind, Except.bind] at h
+    exact matchLengths_lengths _ _ _ _ h
+
+theorem processTG_lengths (T g : Arg α) (Ts gs : List α)
+    (h : processTG T g = .ok (Ts, gs)) : Ts.length = gs.length := by
+  unfold processTG at h
+  cases hT : atleast1d T with
+  | error e => simp [hT, bind, Except.bind] at h
+  | ok T1 =>
+    cases hg : atleast1d g with
+    | error e => simp [hT, hg, bind, Except.bind] at h
+    | ok g1 =>
+      simp only [hT, hg, bind, Except.bind] at h
+      exact matchLengths_lengths _ _ _ _ h
+
+/-- **every (x, T) array query is `map single` over the broadcast pairs** -/
+theorem batchXT_eq_map (single : List α → α → ρ) (x T : Arg α) (bin : Bool)
+    (xs : List (List α)) (Ts : List α) (h : processXT x T bin = .ok (xs, Ts)) :
+    batchXT single x T bin = .ok ((xs.zip Ts).map (fun p => single p.1 p.2)) ∧
+    ((xs.zip Ts).map (fun p => single p.1 p.2)).length = xs.length := by
+  have hl := processXT_lengths x T bin xs Ts h
+  simp [batchXT, h, bind, Except.bind, pure, Except.pure, hl]
+
+/-- a point evaluated **alone** (one row, one temperature) … -/
+theorem batchXT_alone (single : List α → α → ρ) (row : List α) (t : α) :
+    batchXT single (.mat [row]) (.vec [t]) false = .ok [single row t] := by
+  simp [batchXT, processXT, atleast2d, atleast1d, matchLengths, bind, Except.bind, pure, Except.pure]
+
+/-- … and the same point **inside an array**: the i-th entry of the array answer is `single` at the
+i-th broadcast pair, i.e. exactly what the point gives alone. -/
+theorem batchXT_inside (single : List α → α → ρ) (x T : Arg α) (bin : Bool)
+    (xs : List (List α)) (Ts : List α) (h : processXT x T bin = .ok (xs, Ts))
+    (rs : List ρ) (hr : batchXT single x T bin = .ok rs) (i : Nat) (hi : i < xs.length) :
+    ∃ (hi' : i < rs.length) (hT : i < Ts.length),
+      batchXT single (.mat [xs[i]]) (.vec [Ts[i]]) false = .ok [rs[i]] := by
+  have hl := processXT_lengths x T bin xs Ts h
+  obtain ⟨h1, h2⟩ := batchXT_eq_map single x T bin xs Ts h
+  rw [h1] at hr
+  cases hr
+  refine ⟨by rw [h2]; exact hi, by omega, ?_⟩
+  rw [batchXT_alone]
+  simp
+
+/-- the same for a (T, gExtra) array query evaluated pair by pair -/
+theorem batchTG_eq_map (single : α → α → ρ) (T g : Arg α) (Ts gs : List α)
+    (h : processTG T g = .ok (Ts, gs)) :
+    batchTG single T g = .ok ((Ts.zip gs).map (fun p => single p.1 p.2)) := by
+  simp [batchTG, h, bind, Except.bind, pure, Except.pure]
+
+/-- **stateful array query** (the caches are threaded through the points in order): if every single
+query, from every state satisfying an invariant, returns `pureF` of its point and re-establishes the
+invariant, the array answer is `map pureF` over the broadcast pairs — whatever the state was. -/
+theorem batchXTState_pure {σ : Type} (single : σ → List α → α → ρ × σ) (Inv : σ → Prop)
+    (pureF : List α → α → ρ)
+    (hs : ∀ s a t, Inv s → (single s a t).1 = pureF a t ∧ Inv (single s a t).2)
+    (s : σ) (hI : Inv s) (x T : Arg α) (bin : Bool) (xs : List (List α)) (Ts : List α)
+    (h : processXT x T bin = .ok (xs, Ts)) :
+    ∃ s', batchXTState single s x T bin = .ok ((xs.zip Ts).map (fun p => pureF p.1 p.2), s') ∧ Inv s' := by
+  have key : ∀ (ps : List (List α × α)) (acc : List ρ) (s : σ), Inv s →
+      ∃ s', ps.foldl (fun (acc : List ρ × σ) p =>
+          let r := single acc.2 p.1 p.2; (acc.1 ++ [r.1], r.2)) (acc, s)
+        = (acc ++ ps.map (fun p => pureF p.1 p.2), s') ∧ Inv s' := by
+    intro ps
+    induction ps with
+    | nil => intro acc s hI; exact ⟨s, by simp, hI⟩
+    | cons p r ih =>
+      intro acc s hI
+      obtain ⟨h1, h2⟩ := hs s p.1 p.2 hI
+      obtain ⟨s', h3, h4⟩ := ih (acc ++ [pureF p.1 p.2]) (single s p.1 p.2).2 h2
+      refine ⟨s', ?_, h4⟩
+      simp only [List.foldl_cons, h1]
+      rw [h3]; simp
+  obtain ⟨s', h1, h2⟩ := key (xs.zip Ts) [] s hI
+  refine ⟨s', ?_, h2⟩
+  simp only [batchXTState, h, bind, Except.bind, pure, Except.pure]
+  rw [h1]; simp
+
+/-- `_process_x`: only the leading (reference) entry is ever dropped, and only for a full-length vector -/
+theorem processX_spec (l : List α) (n : Nat) :
+    processX (.vec l) n = .ok (if l.length = n then l.drop 1 else l) := by
+  simp [processX, atleast1d, bind, Except.bind, pure, Except.pure]
+
+/-- observation (not a purity issue): the hand-rolled broadcasting of
+MulticomponentThermodynamics.getInterfacialComposition does NOT reject unequal lengths — a longer
+temperature array is silently cut to the length of `gExtra`. -/
+theorem multiIC_cuts_longer_T :
+    multiICPairs (.vec [1, 2, 3]) (.vec [10, 20]) = (.ok [(1, 10), (2, 20)] : Except BErr (List (Nat × Nat))) := by
+  decide
+
+/-! ### arguments are not modified -/
+
+/-- **the repaired `getInterfacialComposition` leaves the caller's `gExtra` untouched** -/
+theorem binaryIC_arg_unchanged [Add α] [BEq α] (off : α) (T g : Arg α)
+    (r : List (α × List α) × Arg α) (h : binaryIC false off T g = .ok r) : r.2 = g := by
+  unfold binaryIC at h
+  cases hT : atleast1d T with
+  | error e => simp [hT, bind, Except.bind] at h
+  | ok T1 =>
+    cases hg : atleast1d g with
+    | error e => simp [hT, hg, bind, Except.bind] at h
+    | ok g1 =>
+      cases hm : matchLengths T1 g1 with
+      | error e => simp [hT, hg, hm, bind, Except.bind] at h
+      | ok pr =>
+        obtain ⟨Ts, gs⟩ := pr
+        simp only [hT, hg, hm, bind, Except.bind, pure, Except.pure] at h
+        cases Ts with
+        | nil => simp at h; rw [← h]
+        | cons t0 r0 =>
+          simp only at h
+          split at h
+          · cases g <;> simp at h <;> rw [← h]
+          · simp at h; rw [← h]
+
+/-- D-C09-gextra: the shipped code added the offset to the caller's array, so repeating the call with
+the same array object asked pycalphad for different GE values (0,100 → 1,101 the first time,
+2,102 the second). -/
+theorem shipped_gextra_in_place :
+    binaryIC true 1 (.scalar 700) (.vec [0, 100])
+      = (.ok ([(700, [1, 101])], .vec [1, 101]) : Except BErr (List (Nat × List Nat) × Arg Nat)) ∧
+    binaryIC true 1 (.scalar 700) (.vec [1, 101])
+      = (.ok ([(700, [2, 102])], .vec [2, 102]) : Except BErr (List (Nat × List Nat) × Arg Nat)) := by
+  decide
+
+/-- the repaired code on the same call -/
+theorem fixed_gextra_copy :
+    binaryIC false 1 (.scalar 700) (.vec [0, 100])
+      = (.ok ([(700, [1, 101])], .vec [0, 100]) : Except BErr (List (Nat × List Nat) × Arg Nat)) := by
+  decide
+
+/-- non-vacuity of the broadcasting hypotheses -/
+example : processXT (.vec [1, 2]) (.vec [5, 6, 7]) false
+    = (.ok ([[1, 2], [1, 2], [1, 2]], [5, 6, 7]) : Except BErr (List (List Nat) × List Nat)) := by decide
+example : processXT (.vec [1, 2, 3]) (.scalar 5) true
+    = (.ok ([[1], [2], [3]], [5, 5, 5]) : Except BErr (List (List Nat) × List Nat)) := by decide
+example : processXT (.mat [[1, 2], [3, 4]]) (.vec [5, 6, 7]) false
+    = (.error .lengthMismatch : Except BErr (List (List Nat) × List Nat)) := by decide
+
+end broadcast
+
+/-! ## 3. the cache state machine of the thermodynamics classes -/
+section compset
+open KawinV.CompSetCache
+
+variable {Ph C β σ ρ τ π χ δ V D κ : Type} [DecidableEq Ph] [DecidableEq τ]
+variable (E : Env Ph C β σ ρ τ π χ δ V D κ)
+
+/-- a logged solver call is fine when every composition set handed to the solver carries the state
+variables of the conditions of THAT call -/
+def Refreshed (e : C × Option (List (CS β σ))) : Prop :=
+  ∀ st, e.2 = some st → ∀ cs ∈ st, cs.sv = E.svOf e.1
+
+def GoodCalls (s : St Ph C β σ τ π κ) : Prop := ∀ e ∈ s.calls, Refreshed E e
+/-- sampled points were only ever used at the temperature they are tagged with -/
+def GoodUsed (s : St Ph C β σ τ π κ) : Prop := ∀ u ∈ s.used, u.1 = u.2
+/-- stored samples are the samples of their tag at the CURRENT sampling density -/
+def PointsOK (s : St Ph C β σ τ π κ) : Prop :=
+  ∀ p tag pts, s.points p = some (tag, pts) → pts = E.sample tag s.dens p
+
+structure Inv (s : St Ph C β σ τ π κ) : Prop where
+  calls : GoodCalls E s
+  used : GoodUsed s
+  points : PointsOK E s
+
+/-- `s'` comes from `s` by steps that keep the sampling density and the invariant -/
+def Pres (s s' : St Ph C β σ τ π κ) : Prop := s'.dens = s.dens ∧ (Inv E s → Inv E s')
+
+theorem Pres.refl (s : St Ph C β σ τ π κ) : Pres E s s := ⟨rfl, id⟩
+
+theorem Pres.trans {a b c : St Ph C β σ τ π κ} (h1 : Pres E a b) (h2 : Pres E b c) : Pres E a c :=
+  ⟨h2.1.trans h1.1, fun h => h2.2 (h1.2 h)⟩
+
+/-- updates of cache slots (and emptying of sample slots) keep everything -/
+theorem pres_slots {s s' : St Ph C β σ τ π κ} (hc : s'.calls = s.calls) (hu : s'.used = s.used)
+    (hd : s'.dens = s.dens) (hp : ∀ p, s'.points p = s.points p ∨ s'.points p = none) : Pres E s s' := by
+  refine ⟨hd, fun h => ⟨?_, ?_, ?_⟩⟩
+  · intro e he; rw [hc] at he; exact h.calls e he
+  · intro u hu'; rw [hu] at hu'; exact h.used u hu'
+  · intro p tag pts hpt
+    rcases hp p with h1 | h1
+    · rw [h1] at hpt; rw [hd]; exact h.points p tag pts hpt
+    · rw [h1] at hpt; cases hpt
+
+theorem inv_fresh (d : Nat) : Inv E (fresh d : St Ph C β σ τ π κ) :=
+  ⟨by intro e he; simp [fresh] at he, by intro u hu; simp [fresh] at hu,
+   by intro p tag pts h; simp [fresh] at h⟩
+
+theorem pres_callSolve_none (s : St Ph C β σ τ π κ) (c : C) : Pres E s (callSolve E s c none).2 := by
+  refine ⟨rfl, fun h => ⟨?_, h.used, h.points⟩⟩
+  intro e he
+  simp only [callSolve, List.mem_append, List.mem_singleton] at he
+  rcases he with he | rfl
+  · exact h.calls e he
+  · intro st hst; cases hst
+
+/-- **state variables refreshed** (one call): `local_equilibrium` hands the solver only composition
+sets whose state variables are those of the current conditions -/
+theorem pres_localEq (s : St Ph C β σ τ π κ) (c : C) (cached : Option (List (CS β σ))) :
+    Pres E s (localEq E s c cached).2 := by
+  refine ⟨rfl, fun h => ⟨?_, h.used, h.points⟩⟩
+  intro e he
+  simp only [localEq, callSolve, List.mem_append, List.mem_singleton] at he
+  rcases he with he | rfl
+  · exact h.calls e he
+  · intro st hst cs hcs
+    cases cached with
+    | none => simp at hst
+    | some sets =>
+      simp only [Option.map_some, Option.some.injEq] at hst
+      subst hst
+      simp only [List.mem_map] at hcs
+      obtain ⟨cs0, _, rfl⟩ := hcs
+      rfl
+
+/-- **sample cache coherence** (one use): points are reused only under their own tag, and what is
+stored is the sample set of the tag at the current density -/
+theorem pres_getSamples (s : St Ph C β σ τ π κ) (p : Ph) (T : τ) : Pres E s (getSamples E s p T).2 := by
+  have fresh_case : Pres E s
+      { s with points := upd s.points p (some (T, E.sample T s.dens p)), used := s.used ++ [(T, T)],
+               sampled := s.sampled ++ [(T, s.dens)] } := by
+    refine ⟨rfl, fun h => ⟨h.calls, ?_, ?_⟩⟩
+    · intro u hu
+      simp only [List.mem_append, List.mem_singleton] at hu
+      rcases hu with hu | rfl
+      · exact h.used u hu
+      · rfl
+    · intro q tag pts hq
+      simp only [upd] at hq
+      split at hq
+      · next e => cases hq; subst e; rfl
+      · exact h.points q tag pts hq
+  unfold getSamples
+  split
+  · next tag pts hpt =>
+    split
+    · next e =>
+      refine ⟨rfl, fun h => ⟨h.calls, ?_, h.points⟩⟩
+      intro u hu
+      simp only [List.mem_append, List.mem_singleton] at hu
+      rcases hu with hu | rfl
+      · exact h.used u hu
+      · exact e
+    · exact fresh_case
+  · exact fresh_case
+
+theorem pres_sampleDF (s : St Ph C β σ τ π κ) (p : Ph) (T : τ) (mu : ρ) : Pres E s (sampleDF E s p T mu).2 :=
+  pres_getSamples E s p T
+
+theorem pres_resetDF (s : St Ph C β σ τ π κ) (p : Ph) (rm : Bool) : Pres E s (resetDF s p rm) := by
+  unfold resetDF
+  split
+  · refine pres_slots E rfl rfl rfl (fun q => ?_)
+    simp only [upd]; split
+    · right; rfl
+    · left; rfl
+  · exact Pres.refl E s
+
+theorem pres_matrixEq (s : St Ph C β σ τ π κ) (x : χ) (T : τ) : Pres E s (matrixEq E s x T).2 :=
+  (pres_localEq E s _ _).trans E (pres_slots E rfl rfl rfl (fun _ => Or.inl rfl))
+
+theorem pres_dfSampling (s : St Ph C β σ τ π κ) (x : χ) (T : τ) (p : Ph) (rm : Bool) :
+    Pres E s (dfSampling E s x T p rm).2 := by
+  unfold dfSampling
+  dsimp only
+  split
+  · exact ((pres_matrixEq E s x T).trans E (pres_sampleDF E _ p T _)).trans E (pres_resetDF E _ p rm)
+  · exact pres_matrixEq E s x T
+
+theorem pres_slot_df (u : St Ph C β σ τ π κ) (p : Ph) (c : Option (List (CS β σ))) :
+    Pres E u { u with dfCache := upd u.dfCache p c } :=
+  pres_slots E rfl rfl rfl (fun _ => Or.inl rfl)
+
+theorem pres_ensurePrecSet (s : St Ph C β σ τ π κ) (p : Ph) (T : τ) (mu : ρ) :
+    Pres E s (ensurePrecSet E s p T mu) := by
+  unfold ensurePrecSet
+  split
+  · exact Pres.refl E s
+  · exact (pres_sampleDF E s p T mu).trans E (pres_slot_df E _ p _)
+
+theorem pres_dfTangentTail (s : St Ph C β σ τ π κ) (r : Res ρ β σ) (x : χ) (T : τ) (p : Ph) (rm : Bool) :
+    Pres E s (dfTangentTail E s r x T p rm).2 := by
+  have h1 := pres_ensurePrecSet E s p T r.out
+  have h2 := pres_localEq E (ensurePrecSet E s p T r.out) (E.condMu T r.out p)
+    ((ensurePrecSet E s p T r.out).dfCache p)
+  have h3 := (h1.trans E h2).trans E (pres_slot_df E _ p (some
+    (localEq E (ensurePrecSet E s p T r.out) (E.condMu T r.out p)
+      ((ensurePrecSet E s p T r.out).dfCache p)).1.sets))
+  unfold dfTangentTail
+  dsimp only
+  split
+  · split
+    · exact (h3.trans E (pres_slot_df E _ p none)).trans E (pres_dfSampling E _ x T p rm)
+    · exact h3.trans E (pres_resetDF E _ p rm)
+  · exact h3
+
+theorem pres_dfTangent (s : St Ph C β σ τ π κ) (x : χ) (T : τ) (p : Ph) (rm : Bool) :
+    Pres E s (dfTangent E s x T p rm).2 := by
+  unfold dfTangent
+  dsimp only
+  split
+  · exact (pres_matrixEq E s x T).trans E (pres_dfTangentTail E _ _ x T p rm)
+  · exact pres_matrixEq E s x T
+
+variable (cfg : Cfg)
+
+theorem pres_updateSets (s : St Ph C β σ τ π κ) (x : χ) (T : τ) (p : Ph) (sets : List (CS β σ)) :
+    Pres E s (updateSets E cfg s x T p sets).2 := pres_localEq E s _ _
+
+theorem pres_compSetsTail (r : Res ρ β σ) (s : St Ph C β σ τ π κ) (x : χ) (T : τ) (p : Ph) :
+    Pres E s (compSetsTail E cfg r s x T p).2 := by
+  unfold compSetsTail
+  dsimp only
+  split
+  · split
+    · split
+      · exact pres_updateSets E cfg s x T p _
+      · exact Pres.refl E s
+    · exact Pres.refl E s
+  · exact Pres.refl E s
+
+theorem pres_compSetsHead (s : St Ph C β σ τ π κ) (x : χ) (T : τ) (p : Ph) (cached : Option (List (CS β σ))) :
+    Pres E s (compSetsHead E cfg s x T p cached).2 := by
+  cases cached with
+  | none => exact pres_callSolve_none E s _
+  | some sets => exact pres_updateSets E cfg s x T p sets
+
+theorem pres_compSetsEq (s : St Ph C β σ τ π κ) (x : χ) (T : τ) (p : Ph) (cached : Option (List (CS β σ))) :
+    Pres E s (compSetsEq E cfg s x T p cached).2.1 :=
+  (pres_compSetsHead E cfg s x T p cached).trans E (pres_compSetsTail E cfg _ _ x T p)
+
+theorem pres_search (x : χ) (T : τ) (p : Ph) (dir : χ) :
+    ∀ (n : Nat) (cur : χ) (s : St Ph C β σ τ π κ), Pres E s (search E cfg x T p dir n cur s).2
+  | 0, _, s => Pres.refl E s
+  | n + 1, cur, s => by
+    have h0 := pres_compSetsEq E cfg s cur T p none
+    unfold search
+    dsimp only
+    split
+    · exact h0
+    · exact h0
+    · exact h0.trans E (pres_search x T p dir n _ _)
+    · exact h0.trans E (pres_search x T p dir n _ _)
+
+theorem pres_curvInvalid (s : St Ph C β σ τ π κ) (p : Ph) (rm : Bool) : Pres E s (curvInvalid s p rm).2 := by
+  have : Pres E s (if rm = true then { s with curvCache := upd s.curvCache p none } else s) := by
+    split
+    · exact pres_slots E rfl rfl rfl (fun _ => Or.inl rfl)
+    · exact Pres.refl E s
+  unfold curvInvalid
+  dsimp only
+  split <;> exact this
+
+theorem pres_curvFinish (s : St Ph C β σ τ π κ) (p : Ph) (rm : Bool) (mu : ρ) (m pr : CS β σ) :
+    Pres E s (curvFinish E s p rm mu m pr).2 :=
+  pres_slots E rfl rfl rfl (fun _ => Or.inl rfl)
+
+theorem pres_aliasCurv (s : St Ph C β σ τ π κ) (p : Ph) (l : Option (List (CS β σ))) :
+    Pres E s (aliasCurv s p l) := by
+  cases l with
+  | none => exact Pres.refl E s
+  | some l => exact pres_slots E rfl rfl rfl (fun _ => Or.inl rfl)
+
+theorem pres_curvature (s : St Ph C β σ τ π κ) (x : χ) (T : τ) (p : Ph) (rm : Bool) (dir : Option χ) :
+    Pres E s (curvature E cfg s x T p rm dir).2 := by
+  have h0 := (pres_compSetsEq E cfg s x T p (s.curvCache p)).trans E
+    (pres_aliasCurv E _ p (compSetsEq E cfg s x T p (s.curvCache p)).2.2)
+  unfold curvature
+  dsimp only
+  split
+  · exact h0.trans E (pres_curvInvalid E _ p rm)
+  · exact h0.trans E (pres_curvFinish E _ p rm _ _ _)
+  · split
+    · exact h0.trans E (pres_curvInvalid E _ p rm)
+    · split
+      · exact (h0.trans E (pres_search E cfg x T p _ _ _ _)).trans E (pres_curvInvalid E _ p rm)
+      · exact (h0.trans E (pres_search E cfg x T p _ _ _ _)).trans E (pres_curvFinish E _ p rm _ _ _)
+
+theorem pres_dfEqBased (approx : Bool) (s : St Ph C β σ τ π κ) (x : χ) (T : τ) (p : Ph) (rm : Bool) :
+    Pres E s (dfEqBased E cfg approx s x T p rm).2 := by
+  have h0 := pres_compSetsEq E cfg s x T p (s.dfCache p)
+  unfold dfEqBased
+  dsimp only
+  split
+  · split
+    · split
+      · exact ((h0.trans E (pres_slot_df E _ p _)).trans E (pres_matrixEq E _ x T)).trans E (pres_resetDF E _ p rm)
+      · exact (h0.trans E (pres_slot_df E _ p _)).trans E (pres_matrixEq E _ x T)
+    · exact (h0.trans E (pres_slot_df E _ p _)).trans E (pres_resetDF E _ p rm)
+  · exact (h0.trans E (pres_slot_df E _ p _)).trans E (pres_dfSampling E _ x T p rm)
+
+theorem pres_diffSingle (post : Res ρ β σ → D) (s : St Ph C β σ τ π κ) (x : χ) (T : τ) (ph : Ph) (rm : Bool) :
+    Pres E s (diffSingle E post s x T ph rm).2 :=
+  (pres_localEq E s _ _).trans E (pres_slots E rfl rfl rfl (fun _ => Or.inl rfl))
+
+theorem pres_drivingForce (m : DFMethod) (s : St Ph C β σ τ π κ) (x : χ) (T : τ) (p : Ph) (rm : Bool) :
+    Pres E s (drivingForce E cfg m s x T p rm).2 := by
+  cases m
+  · exact pres_dfTangent E s x T p rm
+  · exact pres_dfSampling E s x T p rm
+  · exact pres_dfEqBased E cfg true s x T p rm
+  · exact pres_dfEqBased E cfg false s x T p rm
+
+/-- every public call keeps the invariant (changing the sampling density empties the sample cache,
+which is what keeps `PointsOK` true at the new density) -/
+theorem inv_runQuery (ip tp : Res ρ β σ → D) (s : St Ph C β σ τ π κ) (h : Inv E s) (q : Query Ph τ χ) :
+    Inv E (runQuery E cfg ip tp s q).2 := by
+  cases q with
+  | interdiff x T ph rm => exact (pres_diffSingle E ip s x T ph rm).2 h
+  | tracer x T ph rm => exact (pres_diffSingle E tp s x T ph rm).2 h
+  | df m x T p rm => exact (pres_drivingForce E cfg m s x T p rm).2 h
+  | curv x T p rm dir => exact (pres_curvature E cfg s x T p rm dir).2 h
+  | ic x T ge p => exact (pres_callSolve_none E s _).2 h
+  | setDens d =>
+    exact ⟨h.calls, h.used, by intro p tag pts hp; simp [runQuery, setDens] at hp⟩
+  | clear =>
+    exact ⟨h.calls, h.used, by intro p tag pts hp; simp [runQuery, clearCache] at hp⟩
+
+theorem inv_runAll (ip tp : Res ρ β σ → D) :
+    ∀ (hist : List (Query Ph τ χ)) (s : St Ph C β σ τ π κ), Inv E s → Inv E (runAll E cfg ip tp s hist)
+  | [], s, h => h
+  | q :: r, s, h => inv_runAll ip tp r _ (inv_runQuery E cfg ip tp s h q)
+
+/-- **state variables refreshed — every history**: in every sequence of public calls on a new object,
+every solver call that received cached composition sets received them with the state variables
+(GE, N, P, T) of its own conditions. -/
+theorem calls_refreshed_for_every_history (ip tp : Res ρ β σ → D) (d : Nat) (hist : List (Query Ph τ χ)) :
+    ∀ e ∈ (runAll E cfg ip tp (fresh d) hist).calls, ∀ st, e.2 = some st → ∀ cs ∈ st, cs.sv = E.svOf e.1 :=
+  (inv_runAll E cfg ip tp hist _ (inv_fresh E d)).calls
+
+/-- **sample cache coherence — every history**: whenever sampled points were used, their tag was the
+temperature of the query; and the stored points are always those of the current density. -/
+theorem samples_coherent_for_every_history (ip tp : Res ρ β σ → D) (d : Nat) (hist : List (Query Ph τ χ)) :
+    (∀ u ∈ (runAll E cfg ip tp (fresh d) hist).used, u.1 = u.2) ∧
+    PointsOK E (runAll E cfg ip tp (fresh d) hist) :=
+  ⟨(inv_runAll E cfg ip tp hist _ (inv_fresh E d)).used, (inv_runAll E cfg ip tp hist _ (inv_fresh E d)).points⟩
+
+/-- **changing the sampling density empties the sample cache** -/
+theorem setDens_empties (s : St Ph C β σ τ π κ) (d : Nat) (p : Ph) :
+    (setDens s d).points p = none ∧ (setDens s d).dens = d := ⟨rfl, rfl⟩
+
+end compset
+
+/-! ### conditional purity: if the solver does not depend on its starting point … -/
+section purity
+open KawinV.CompSetCache
+
+variable {Ph C β σ ρ τ π χ δ V D κ : Type} [DecidableEq Ph] [DecidableEq τ]
+variable (E : Env Ph C β σ ρ τ π χ δ V D κ)
+
+/-! what each query computes when every equilibrium is computed without a supplied start: functions
+of the arguments (and of the configured sampling density `d`) only -/
+
+def matrixPure (x : χ) (T : τ) : Res ρ β σ := E.solve (E.condLocal x T E.matrix) none
+
+def dfSamplingPure (d : Nat) (x : χ) (T : τ) (p : Ph) : Option V :=
+  if E.valid (matrixPure E x T).out then
+    some (E.dfOfSample (E.pick (E.sample T d p) (matrixPure E x T).out T).1
+                       (E.pick (E.sample T d p) (matrixPure E x T).out T).2)
+  else none
+
+def dfTangentPure (d : Nat) (x : χ) (T : τ) (p : Ph) : Option V :=
+  if E.valid (matrixPure E x T).out then
+    if E.valid (E.solve (E.condMu T (matrixPure E x T).out p) none).out then
+      if E.degenerate (E.solve (E.condMu T (matrixPure E x T).out p) none).sets (matrixPure E x T).sets then
+        dfSamplingPure E d x T p
+      else some (E.dfOfTangent (E.solve (E.condMu T (matrixPure E x T).out p) none))
+    else none
+  else none
+
+def compSetsPure (x : χ) (T : τ) (p : Ph) : Option (ρ × Option (CS β σ) × Option (CS β σ)) :=
+  if E.valid (E.solve (E.condEq x T p true) none).out then
+    some ((E.solve (E.condEq x T p true) none).out,
+          (E.split (E.solve (E.condEq x T p true) none).sets p).1,
+          (E.split (E.solve (E.condEq x T p true) none).sets p).2.1)
+  else none
+
+def searchPure (x : χ) (T : τ) (p : Ph) (dir : χ) : Nat → χ → Option (ρ × CS β σ × CS β σ)
+  | 0, _ => none
+  | n + 1, cur =>
+    match compSetsPure E cur T p with
+    | none => none
+    | some (mu, some m, some pr) => some (mu, m, pr)
+    | some (_, _, none) => searchPure x T p dir n (E.mid cur dir)
+    | some (_, none, some _) => searchPure x T p dir n (E.mid cur x)
+
+def curvaturePure (x : χ) (T : τ) (p : Ph) (dir : Option χ) : Option κ :=
+  match compSetsPure E x T p with
+  | none => none
+  | some (mu, some m, some pr) => some (E.curvOf mu m pr none)
+  | some (_, _, _) =>
+    match dir with
+    | none => none
+    | some d =>
+      match searchPure E x T p d 15 (E.mid x d) with
+      | none => none
+      | some (mu, m, pr) => some (E.curvOf mu m pr none)
+
+def dfEqBasedPure (approx : Bool) (d : Nat) (x : χ) (T : τ) (p : Ph) : Option V :=
+  match compSetsPure E x T p with
+  | some (mu, some m, some pr) =>
+    if approx then
+      if E.valid (matrixPure E x T).out then some (E.dfOfApprox pr (matrixPure E x T).out mu) else none
+    else some (E.dfOfCurv x mu m pr)
+  | _ => dfSamplingPure E d x T p
+
+def drivingForcePure (m : DFMethod) (d : Nat) (x : χ) (T : τ) (p : Ph) : Option V :=
+  match m with
+  | .tangent => dfTangentPure E d x T p
+  | .sampling => dfSamplingPure E d x T p
+  | .approximate => dfEqBasedPure E true d x T p
+  | .curvature => dfEqBasedPure E false d x T p
+
+/-- the hypothesis (never an axiom): the solver's answer does not depend on the start it is given -/
+def StartIndependent : Prop := ∀ c a b, E.solve c a = E.solve c b
+
+variable (hs : StartIndependent E)
+include hs
+
+theorem localEq_res (s : St Ph C β σ τ π κ) (c : C) (cached : Option (List (CS β σ))) :
+    (localEq E s c cached).1 = E.solve c none := hs c _ _
+
+theorem matrixEq_res (s : St Ph C β σ τ π κ) (x : χ) (T : τ) : (matrixEq E s x T).1 = matrixPure E x T :=
+  hs _ _ _
+
+omit hs in
+theorem getSamples_res (s : St Ph C β σ τ π κ) (h : PointsOK E s) (p : Ph) (T : τ) :
+    (getSamples E s p T).1 = E.sample T s.dens p := by
+  unfold getSamples
+  split
+  · next tag pts hpt =>
+    split
+    · next e => subst e; exact h p tag pts hpt
+    · rfl
+  · rfl
+
+theorem dfSampling_res (s : St Ph C β σ τ π κ) (h : Inv E s) (x : χ) (T : τ) (p : Ph) (rm : Bool) :
+    (dfSampling E s x T p rm).1 = dfSamplingPure E s.dens x T p := by
+  have hm := pres_matrixEq E s x T
+  have hp := getSamples_res E (matrixEq E s x T).2 (hm.2 h).points p T
+  unfold dfSampling dfSamplingPure
+  dsimp only
+  rw [matrixEq_res E hs]
+  split
+  · simp only [sampleDF, hp, hm.1, matrixEq_res E hs]
+  · rfl
+
+omit hs in
+theorem ensurePrecSet_dens (s : St Ph C β σ τ π κ) (p : Ph) (T : τ) (mu : ρ) :
+    (ensurePrecSet E s p T mu).dens = s.dens := (pres_ensurePrecSet E s p T mu).1
+
+theorem dfSampling_res' (s : St Ph C β σ τ π κ) (h : Inv E s) (d : Nat) (hd : s.dens = d)
+    (x : χ) (T : τ) (p : Ph) (rm : Bool) :
+    (dfSampling E s x T p rm).1 = dfSamplingPure E d x T p := by
+  rw [dfSampling_res E hs s h, hd]
+
+theorem dfTangentTail_res (s : St Ph C β σ τ π κ) (h : Inv E s) (x : χ) (T : τ) (p : Ph) (rm : Bool) :
+    (dfTangentTail E s (matrixPure E x T) x T p rm).1 =
+      if E.valid (E.solve (E.condMu T (matrixPure E x T).out p) none).out then
+        if E.degenerate (E.solve (E.condMu T (matrixPure E x T).out p) none).sets (matrixPure E x T).sets then
+          dfSamplingPure E s.dens x T p
+        else some (E.dfOfTangent (E.solve (E.condMu T (matrixPure E x T).out p) none))
+      else none := by
+  have h1 := pres_ensurePrecSet E s p T (matrixPure E x T).out
+  have h2 := pres_localEq E (ensurePrecSet E s p T (matrixPure E x T).out)
+    (E.condMu T (matrixPure E x T).out p) ((ensurePrecSet E s p T (matrixPure E x T).out).dfCache p)
+  have h12 := h1.trans E h2
+  unfold dfTangentTail
+  dsimp only
+  rw [localEq_res E hs]
+  split
+  · split
+    · apply dfSampling_res' E hs
+      · refine (Pres.trans E h12 ?_).2 h
+        exact pres_slots E rfl rfl rfl (fun _ => Or.inl rfl)
+      · refine (Pres.trans E h12 ?_).1
+        exact pres_slots E rfl rfl rfl (fun _ => Or.inl rfl)
+    · rfl
+  · rfl
+
+theorem dfTangent_res (s : St Ph C β σ τ π κ) (h : Inv E s) (x : χ) (T : τ) (p : Ph) (rm : Bool) :
+    (dfTangent E s x T p rm).1 = dfTangentPure E s.dens x T p := by
+  have hm := pres_matrixEq E s x T
+  unfold dfTangent dfTangentPure
+  dsimp only
+  rw [matrixEq_res E hs]
+  split
+  · rw [dfTangentTail_res E hs _ (hm.2 h), hm.1]
+  · rfl
+
+theorem compSetsHead_res (s : St Ph C β σ τ π κ) (x : χ) (T : τ) (p : Ph) (cached : Option (List (CS β σ))) :
+    (compSetsHead E Cfg.fixed s x T p cached).1 = E.solve (E.condEq x T p true) none := by
+  cases cached with
+  | none => rfl
+  | some sets => exact hs _ _ _
+
+theorem compSetsTail_res (s : St Ph C β σ τ π κ) (x : χ) (T : τ) (p : Ph) :
+    (compSetsTail E Cfg.fixed (E.solve (E.condEq x T p true) none) s x T p).1 = compSetsPure E x T p := by
+  unfold compSetsTail compSetsPure
+  dsimp only
+  split
+  · split
+    · next m pr h1 h2 =>
+      split
+      · have : (updateSets E Cfg.fixed s x T p [m, pr]).1 = E.solve (E.condEq x T p true) none := hs _ _ _
+        rw [this]
+      · rw [h1, h2]
+    · rfl
+  · rfl
+
+theorem compSetsEq_res (s : St Ph C β σ τ π κ) (x : χ) (T : τ) (p : Ph) (cached : Option (List (CS β σ))) :
+    (compSetsEq E Cfg.fixed s x T p cached).1 = compSetsPure E x T p := by
+  unfold compSetsEq
+  dsimp only
+  rw [compSetsHead_res E hs, compSetsTail_res E hs]
+
+theorem search_res (x : χ) (T : τ) (p : Ph) (dir : χ) :
+    ∀ (n : Nat) (cur : χ) (s : St Ph C β σ τ π κ),
+      (search E Cfg.fixed x T p dir n cur s).1 = searchPure E x T p dir n cur
+  | 0, _, _ => rfl
+  | n + 1, cur, s => by
+    unfold search searchPure
+    dsimp only
+    rw [compSetsEq_res E hs]
+    rcases compSetsPure E cur T p with _ | ⟨mu, m, pr⟩
+    · rfl
+    · cases m <;> cases pr <;> first | rfl | exact search_res x T p dir n _ _
+
+theorem dfEqBased_res (approx : Bool) (s : St Ph C β σ τ π κ) (h : Inv E s) (x : χ) (T : τ) (p : Ph) (rm : Bool) :
+    (dfEqBased E Cfg.fixed approx s x T p rm).1 = dfEqBasedPure E approx s.dens x T p := by
+  have h0 := pres_compSetsEq E Cfg.fixed s x T p (s.dfCache p)
+  have hsamp := dfSampling_res' E hs _ ((h0.trans E (pres_slot_df E _ p none)).2 h) _
+      (h0.trans E (pres_slot_df E _ p none)).1 x T p rm
+  unfold dfEqBased dfEqBasedPure
+  dsimp only
+  rw [compSetsEq_res E hs]
+  rcases compSetsPure E x T p with _ | ⟨mu, m, pr⟩
+  · exact hsamp
+  · cases m with
+    | none => exact hsamp
+    | some m =>
+      cases pr with
+      | none => exact hsamp
+      | some pr =>
+        dsimp only
+        cases approx
+        · rfl
+        · simp only [if_true]
+          rw [matrixEq_res E hs]
+          split <;> rfl
+
+theorem drivingForce_res (m : DFMethod) (s : St Ph C β σ τ π κ) (h : Inv E s) (x : χ) (T : τ) (p : Ph) (rm : Bool) :
+    (drivingForce E Cfg.fixed m s x T p rm).1 = drivingForcePure E m s.dens x T p := by
+  cases m
+  · exact dfTangent_res E hs s h x T p rm
+  · exact dfSampling_res E hs s h x T p rm
+  · exact dfEqBased_res E hs true s h x T p rm
+  · exact dfEqBased_res E hs false s h x T p rm
+
+theorem diffSingle_res (post : Res ρ β σ → D) (s : St Ph C β σ τ π κ) (x : χ) (T : τ) (ph : Ph) (rm : Bool) :
+    (diffSingle E post s x T ph rm).1 = post (E.solve (E.condLocal x T ph) none) := by
+  unfold diffSingle
+  dsimp only
+  rw [localEq_res E hs]
+
+/-! frame: the equilibrium helpers never touch the curvature slots -/
+
+/-- the curvature slots are untouched -/
+def SameCurv (s s' : St Ph C β σ τ π κ) : Prop := s'.curvCache = s.curvCache ∧ s'.curvOut = s.curvOut
+
+omit hs in
+theorem SameCurv.trans {a b c : St Ph C β σ τ π κ} (h1 : SameCurv a b) (h2 : SameCurv b c) : SameCurv a c :=
+  ⟨h2.1.trans h1.1, h2.2.trans h1.2⟩
+
+omit hs in
+theorem sameCurv_compSetsTail (cfg : Cfg) (r : Res ρ β σ) (s : St Ph C β σ τ π κ) (x : χ) (T : τ) (p : Ph) :
+    SameCurv s (compSetsTail E cfg r s x T p).2 := by
+  unfold compSetsTail
+  dsimp only
+  split
+  · split
+    · split
+      · exact ⟨rfl, rfl⟩
+      · exact ⟨rfl, rfl⟩
+    · exact ⟨rfl, rfl⟩
+  · exact ⟨rfl, rfl⟩
+
+omit hs in
+theorem compSetsEq_frame (cfg : Cfg) (s : St Ph C β σ τ π κ) (x : χ) (T : τ) (p : Ph) (cached : Option (List (CS β σ))) :
+    (compSetsEq E cfg s x T p cached).2.1.curvCache = s.curvCache ∧
+    (compSetsEq E cfg s x T p cached).2.1.curvOut = s.curvOut := by
+  have h1 : SameCurv s (compSetsHead E cfg s x T p cached).2 := by
+    cases cached <;> exact ⟨rfl, rfl⟩
+  exact h1.trans (sameCurv_compSetsTail E cfg _ _ x T p)
+
+omit hs in
+theorem search_frame (cfg : Cfg) (x : χ) (T : τ) (p : Ph) (dir : χ) :
+    ∀ (n : Nat) (cur : χ) (s : St Ph C β σ τ π κ),
+      (search E cfg x T p dir n cur s).2.curvCache = s.curvCache ∧
+      (search E cfg x T p dir n cur s).2.curvOut = s.curvOut
+  | 0, _, _ => ⟨rfl, rfl⟩
+  | n + 1, cur, s => by
+    have h0 := compSetsEq_frame E cfg s cur T p none
+    unfold search
+    dsimp only
+    split
+    · exact h0
+    · exact h0
+    · have := search_frame cfg x T p dir n (E.mid cur dir) (compSetsEq E cfg s cur T p none).2.1
+      exact ⟨this.1.trans h0.1, this.2.trans h0.2⟩
+    · have := search_frame cfg x T p dir n (E.mid cur x) (compSetsEq E cfg s cur T p none).2.1
+      exact ⟨this.1.trans h0.1, this.2.trans h0.2⟩
+
+omit hs in
+theorem aliasCurv_slots (u s : St Ph C β σ τ π κ) (p : Ph) (l : Option (List (CS β σ)))
+    (hu : u.curvCache = s.curvCache ∧ u.curvOut = s.curvOut) (hl : l.isSome = (s.curvCache p).isSome) :
+    (aliasCurv u p l).curvOut = s.curvOut ∧
+    ((aliasCurv u p l).curvCache p = none ↔ s.curvCache p = none) := by
+  cases l with
+  | none =>
+    simp only [aliasCurv, hu.1, hu.2, true_and]
+  | some l =>
+    simp only [aliasCurv, hu.2, true_and, upd, if_true]
+    cases h : s.curvCache p with
+    | none => simp [h] at hl
+    | some _ => simp
+
+omit hs in
+/-- the answer of `curvInvalid` in terms of the slots -/
+theorem curvInvalid_res (s : St Ph C β σ τ π κ) (p : Ph) (rm : Bool) :
+    (curvInvalid s p rm).1 = if rm = true ∨ s.curvCache p = none then none else s.curvOut p := by
+  unfold curvInvalid
+  dsimp only
+  cases rm
+  · simp only [Bool.false_eq_true, if_false, false_or]
+    cases h : s.curvCache p <;> simp
+  · simp [upd]
+
+/-- **curvature factors, exact characterisation** (repaired code, start-independent solver, and
+`curvOf` not depending on the previous output, i.e. the impingement sum is not exactly 0):
+whenever the equilibrium at the arguments yields a two-phase result the answer is a function of the
+arguments only; when it does not, the answer is `none` on a new object or with removeCache, but the
+PREVIOUS output on an object that still holds a cached equilibrium (kawin's documented fallback —
+finding `curvature-fallback`). -/
+theorem curvature_res (hb : ∀ mu m pr a b, E.curvOf mu m pr a = E.curvOf mu m pr b)
+    (s : St Ph C β σ τ π κ) (x : χ) (T : τ) (p : Ph) (rm : Bool) (dir : Option χ) :
+    (curvature E Cfg.fixed s x T p rm dir).1 =
+      match curvaturePure E x T p dir with
+      | some k => some k
+      | none => if rm = true ∨ s.curvCache p = none then none else s.curvOut p := by
+  have hal := aliasCurv_slots (compSetsEq E Cfg.fixed s x T p (s.curvCache p)).2.1 s p
+    (compSetsEq E Cfg.fixed s x T p (s.curvCache p)).2.2
+    (compSetsEq_frame E Cfg.fixed s x T p (s.curvCache p))
+    (by cases h : s.curvCache p <;> simp [compSetsEq, h])
+  unfold curvature curvaturePure
+  dsimp only
+  rw [compSetsEq_res E hs]
+  have hinv : (curvInvalid (aliasCurv (compSetsEq E Cfg.fixed s x T p (s.curvCache p)).2.1 p
+        (compSetsEq E Cfg.fixed s x T p (s.curvCache p)).2.2) p rm).1
+      = if rm = true ∨ s.curvCache p = none then none else s.curvOut p := by
+    rw [curvInvalid_res, hal.1]
+    simp only [hal.2]
+  rcases compSetsPure E x T p with _ | ⟨mu, m, pr⟩
+  · exact hinv
+  · have tail : ∀ (d : χ),
+        (match (search E Cfg.fixed x T p d 15 (E.mid x d)
+            (aliasCurv (compSetsEq E Cfg.fixed s x T p (s.curvCache p)).2.1 p
+              (compSetsEq E Cfg.fixed s x T p (s.curvCache p)).2.2)).1 with
+          | none => curvInvalid (search E Cfg.fixed x T p d 15 (E.mid x d)
+              (aliasCurv (compSetsEq E Cfg.fixed s x T p (s.curvCache p)).2.1 p
+                (compSetsEq E Cfg.fixed s x T p (s.curvCache p)).2.2)).2 p rm
+          | some (mu, m, pr) => curvFinish E (search E Cfg.fixed x T p d 15 (E.mid x d)
+              (aliasCurv (compSetsEq E Cfg.fixed s x T p (s.curvCache p)).2.1 p
+                (compSetsEq E Cfg.fixed s x T p (s.curvCache p)).2.2)).2 p rm mu m pr).1
+        = match (match searchPure E x T p d 15 (E.mid x d) with
+            | none => none
+            | some (mu, m, pr) => some (E.curvOf mu m pr none)) with
+          | some k => some k
+          | none => if rm = true ∨ s.curvCache p = none then none else s.curvOut p := by
+      intro d
+      have hsf := search_frame E Cfg.fixed x T p d 15 (E.mid x d)
+        (aliasCurv (compSetsEq E Cfg.fixed s x T p (s.curvCache p)).2.1 p
+          (compSetsEq E Cfg.fixed s x T p (s.curvCache p)).2.2)
+      rw [search_res E hs]
+      rcases searchPure E x T p d 15 (E.mid x d) with _ | ⟨mu', m', pr'⟩
+      · dsimp only
+        rw [curvInvalid_res, hsf.2, hal.1, hsf.1]
+        simp only [hal.2]
+      · dsimp only [curvFinish]
+        rw [hb _ _ _ _ none]
+    cases m with
+    | none =>
+      cases dir with
+      | none => exact hinv
+      | some d => exact tail d
+    | some m =>
+      cases pr with
+      | none =>
+        cases dir with
+        | none => exact hinv
+        | some d => exact tail d
+      | some pr =>
+        dsimp only [curvFinish]
+        rw [hb _ _ _ _ none]
+
+end purity
+
+/-! ### the clauses for whole histories -/
+section final
+open KawinV.CompSetCache KawinV.Broadcast
+
+variable {Ph C β σ ρ τ π χ δ V D κ : Type} [DecidableEq Ph] [DecidableEq τ]
+variable (E : Env Ph C β σ ρ τ π χ δ V D κ)
+
+/-- **conditional purity, every query history** (repaired code).  IF the solver's answer does not
+depend on the starting point it is given (hypothesis `hs`; for the real pycalphad this is the monitored
+part) and `curvOf` does not use the previous output (`hb`: impingement sum ≠ 0), THEN after ANY
+sequence of public calls — any orders, repetitions, temperature jumps, removeCache on or off, density
+changes, clearCache — the next call returns exactly what it returns on a new object with the same
+sampling density: interdiffusivity, tracer diffusivity, driving force (all four methods),
+multicomponent interfacial composition, and the curvature factors whenever the equilibrium at the
+arguments gives a two-phase result or removeCache is set (the remaining case is kawin's
+previous-output fallback, see `curvature_res` and `curvature_fallback_depends_on_history`). -/
+theorem purity_for_every_history (hs : StartIndependent E)
+    (hb : ∀ mu m pr a b, E.curvOf mu m pr a = E.curvOf mu m pr b)
+    (ip tp : Res ρ β σ → D) (d : Nat) (hist : List (Query Ph τ χ)) (q : Query Ph τ χ)
+    (hq : ∀ x T p rm dir, q = .curv x T p rm dir → rm = true ∨ (curvaturePure E x T p dir).isSome) :
+    (runQuery E Cfg.fixed ip tp (runAll E Cfg.fixed ip tp (fresh d) hist) q).1 =
+    (runQuery E Cfg.fixed ip tp (fresh (runAll E Cfg.fixed ip tp (fresh d) hist).dens) q).1 := by
+  have hw := inv_runAll E Cfg.fixed ip tp hist _ (inv_fresh E d)
+  have hf := inv_fresh (κ := κ) E (runAll E Cfg.fixed ip tp (fresh d) hist).dens
+  cases q with
+  | interdiff x T ph rm =>
+    show Ans.diff _ = Ans.diff _
+    rw [diffSingle_res E hs, diffSingle_res E hs]
+  | tracer x T ph rm =>
+    show Ans.diff _ = Ans.diff _
+    rw [diffSingle_res E hs, diffSingle_res E hs]
+  | df m x T p rm =>
+    show Ans.df _ = Ans.df _
+    rw [drivingForce_res E hs m _ hw, drivingForce_res E hs m _ hf]
+    rfl
+  | curv x T p rm dir =>
+    show Ans.curv _ = Ans.curv _
+    rw [curvature_res E hs hb, curvature_res E hs hb]
+    rcases hq x T p rm dir rfl with h | h
+    · subst h; cases curvaturePure E x T p dir <;> simp
+    · cases hc : curvaturePure E x T p dir with
+      | none => simp [hc] at h
+      | some k => rfl
+  | ic x T ge p => rfl
+  | setDens d' => rfl
+  | clear => rfl
+
+/-- … and the values themselves are the explicit functions of the arguments defined above -/
+theorem query_values (hs : StartIndependent E) (ip tp : Res ρ β σ → D) (d : Nat) (hist : List (Query Ph τ χ)) :
+    let w := runAll E Cfg.fixed ip tp (fresh d) hist
+    (∀ x T ph rm, (diffSingle E ip w x T ph rm).1 = ip (E.solve (E.condLocal x T ph) none)) ∧
+    (∀ x T ph rm, (diffSingle E tp w x T ph rm).1 = tp (E.solve (E.condLocal x T ph) none)) ∧
+    (∀ m x T p rm, (drivingForce E Cfg.fixed m w x T p rm).1 = drivingForcePure E m w.dens x T p) ∧
+    (∀ x T ge p, (interfacialMulti E w x T ge p).1 = E.solve (E.condIC x T ge p) none) := by
+  intro w
+  have hw : Inv E w := inv_runAll E Cfg.fixed ip tp hist _ (inv_fresh E d)
+  exact ⟨fun x T ph rm => diffSingle_res E hs ip w x T ph rm, fun x T ph rm => diffSingle_res E hs tp w x T ph rm,
+    fun m x T p rm => drivingForce_res E hs m w hw x T p rm, fun _ _ _ _ => rfl⟩
+
+/-! ### removeCache -/
+
+/-- **removeCache, diffusivities**: after an interdiffusivity / tracer query with `removeCache = True`
+the diffusivity cache of that phase holds nothing -/
+theorem removeCache_diff (post : Res ρ β σ → D) (s : St Ph C β σ τ π κ) (x : χ) (T : τ) (ph : Ph) :
+    (diffSingle E post s x T ph true).2.diffCache ph = none := by
+  simp [diffSingle, upd]
+
+/-- the driving-force caches of `p` are empty -/
+def DFCleared (s : St Ph C β σ τ π κ) (p : Ph) : Prop :=
+  s.dfCache p = none ∧ s.matrixCs = none ∧ s.points p = none
+
+theorem resetDF_true (s : St Ph C β σ τ π κ) (p : Ph) : DFCleared (resetDF s p true) p := by
+  simp [DFCleared, resetDF, upd]
+
+theorem removeCache_dfSampling (s : St Ph C β σ τ π κ) (x : χ) (T : τ) (p : Ph) (v : V)
+    (h : (dfSampling E s x T p true).1 = some v) : DFCleared (dfSampling E s x T p true).2 p := by
+  unfold dfSampling at h ⊢
+  dsimp only at h ⊢
+  split
+  · exact resetDF_true _ p
+  · next hv => rw [if_neg hv] at h; cases h
+
+theorem removeCache_dfTangent (s : St Ph C β σ τ π κ) (x : χ) (T : τ) (p : Ph) (v : V)
+    (h : (dfTangent E s x T p true).1 = some v) : DFCleared (dfTangent E s x T p true).2 p := by
+  unfold dfTangent at h ⊢
+  dsimp only at h ⊢
+  split
+  · next hv =>
+    rw [if_pos hv] at h
+    unfold dfTangentTail at h ⊢
+    dsimp only at h ⊢
+    split
+    · next hv2 =>
+      rw [if_pos hv2] at h
+      split
+      · next hd => rw [if_pos hd] at h; exact removeCache_dfSampling E _ x T p v h
+      · exact resetDF_true _ p
+    · next hv2 => rw [if_neg hv2] at h; cases h
+  · next hv => rw [if_neg hv] at h; cases h
+
+theorem removeCache_dfEqBased (cfg : Cfg) (approx : Bool) (s : St Ph C β σ τ π κ) (x : χ) (T : τ) (p : Ph) (v : V)
+    (h : (dfEqBased E cfg approx s x T p true).1 = some v) : DFCleared (dfEqBased E cfg approx s x T p true).2 p := by
+  unfold dfEqBased at h ⊢
+  dsimp only at h ⊢
+  split
+  · next mu m pr he =>
+    simp only [he] at h
+    cases approx
+    · exact resetDF_true _ p
+    · simp only [if_true] at h ⊢
+      split
+      · exact resetDF_true _ p
+      · next hv => rw [if_neg hv] at h; cases h
+  · next hne =>
+    split at h
+    · next mu m pr he => exact absurd he (hne mu m pr)
+    · exact removeCache_dfSampling E _ x T p v h
+
+/-- **removeCache, driving force**: after a driving-force query with `removeCache = True` that
+returned a value, the caches it touches — `_compset_cache_df[prec]`, `_matrix_cs`,
+`_points_cache[prec]` — hold nothing.  (A query that returns `None` because an equilibrium did not
+converge returns early, before `_resetDrivingForceCache`; `_matrix_cs` then still holds the failed
+composition sets.) -/
+theorem removeCache_df (cfg : Cfg) (m : DFMethod) (s : St Ph C β σ τ π κ) (x : χ) (T : τ) (p : Ph) (v : V)
+    (h : (drivingForce E cfg m s x T p true).1 = some v) : DFCleared (drivingForce E cfg m s x T p true).2 p := by
+  cases m
+  · exact removeCache_dfTangent E s x T p v h
+  · exact removeCache_dfSampling E s x T p v h
+  · exact removeCache_dfEqBased E cfg true s x T p v h
+  · exact removeCache_dfEqBased E cfg false s x T p v h
+
+theorem curvInvalid_true (s : St Ph C β σ τ π κ) (p : Ph) : (curvInvalid s p true).2.curvCache p = none := by
+  unfold curvInvalid
+  dsimp only
+  split <;> simp [upd]
+
+/-- **removeCache, curvature factors**: after `curvatureFactor(..., removeCache=True)` — whatever it
+returned — the cached equilibrium of that precipitate is gone -/
+theorem removeCache_curvature (cfg : Cfg) (s : St Ph C β σ τ π κ) (x : χ) (T : τ) (p : Ph) (dir : Option χ) :
+    (curvature E cfg s x T p true dir).2.curvCache p = none := by
+  unfold curvature
+  dsimp only
+  split
+  · exact curvInvalid_true _ p
+  · simp [curvFinish, upd]
+  · split
+    · exact curvInvalid_true _ p
+    · split
+      · exact curvInvalid_true _ p
+      · simp [curvFinish, upd]
+
+end final
+
+/-! ### array queries of the thermodynamics classes (compositions are lists, temperatures scalars) -/
+section arrays
+open KawinV.CompSetCache KawinV.Broadcast
+
+variable {Ph C β σ ρ τ π δ V D κ : Type} [DecidableEq Ph] [DecidableEq τ]
+variable (E : Env Ph C β σ ρ τ π (List τ) δ V D κ)
+
+/-- **batching, diffusivities**: `getInterdiffusivity(x, T)` / `getTracerDiffusivity(x, T)` on arrays is
+`map` of the single-point function over the broadcast pairs, from every reachable state — so a point
+gives the same value alone or inside an array (given a start-independent solver). -/
+theorem array_diffusivity_pure (hs : StartIndependent E) (post : Res ρ β σ → D) (ph : Ph) (rm : Bool)
+    (s : St Ph C β σ τ π κ) (h : Inv E s) (x T : Arg τ) (bin : Bool) (xs : List (List τ)) (Ts : List τ)
+    (hx : processXT x T bin = .ok (xs, Ts)) :
+    ∃ s', batchXTState (fun s x T => diffSingle E post s x T ph rm) s x T bin
+        = .ok ((xs.zip Ts).map (fun p => post (E.solve (E.condLocal p.1 p.2 ph) none)), s') ∧ Inv E s' :=
+  batchXTState_pure _ (Inv E) _
+    (fun s a t hI => ⟨diffSingle_res E hs post s a t ph rm, (pres_diffSingle E post s a t ph rm).2 hI⟩)
+    s h x T bin xs Ts hx
+
+/-- **batching, driving force**: the same for `getDrivingForce(x, T)` with any of the four methods -/
+theorem array_drivingForce_pure (hs : StartIndependent E) (m : DFMethod) (p : Ph) (rm : Bool)
+    (s : St Ph C β σ τ π κ) (h : Inv E s) (x T : Arg τ) (bin : Bool) (xs : List (List τ)) (Ts : List τ)
+    (hx : processXT x T bin = .ok (xs, Ts)) :
+    ∃ s', batchXTState (fun s x T => drivingForce E Cfg.fixed m s x T p rm) s x T bin
+        = .ok ((xs.zip Ts).map (fun q => drivingForcePure E m s.dens q.1 q.2 p), s') ∧ Inv E s' := by
+  obtain ⟨s', h1, h2⟩ := batchXTState_pure (fun s x T => drivingForce E Cfg.fixed m s x T p rm)
+    (fun u => Inv E u ∧ u.dens = s.dens) (fun a t => drivingForcePure E m s.dens a t p)
+    (fun u a t hI => ⟨by rw [drivingForce_res E hs m u hI.1, hI.2],
+      (pres_drivingForce E Cfg.fixed m u a t p rm).2 hI.1,
+      (pres_drivingForce E Cfg.fixed m u a t p rm).1.trans hI.2⟩)
+    s ⟨h, rfl⟩ x T bin xs Ts hx
+  exact ⟨s', h1, h2.1⟩
+
+end arrays
+
+/-! ### witnesses on a toy solver that IS start-independent -/
+section witnesses
+open KawinV.CompSetCache
+
+/-- conditions are numbers; the solver echoes them, finds two phases except at `bad`; the two-phase
+condition with the offset is `x + 100`, without it `x` -/
+def toyEnv (bad : Nat) : Env Unit Nat Unit Nat Nat Nat Unit Nat Nat Nat Nat Nat where
+  solve c _ := ⟨c, if c = bad then [] else [⟨(), 0⟩, ⟨(), 0⟩]⟩
+  svOf c := c
+  matrix := ()
+  condLocal x _ _ := x
+  condMu _ mu _ := mu
+  condEq x _ _ b := if b then x + 100 else x
+  condIC x _ _ _ := x
+  valid _ := true
+  sample _ _ _ := ()
+  pick _ mu _ := (mu, ⟨(), 0⟩)
+  degenerate _ _ := false
+  split sets _ := (sets[0]?, sets[1]?, false)
+  mid a _ := a
+  dfOfSample d _ := d
+  dfOfTangent r := r.out
+  dfOfApprox _ a _ := a
+  dfOfCurv _ mu _ _ := mu
+  curvOf mu _ _ _ := mu
+
+theorem toy_startIndependent (bad : Nat) : StartIndependent (toyEnv bad) := fun _ _ _ => rfl
+
+/-- non-vacuity of the hypotheses of `purity_for_every_history` -/
+example : StartIndependent (toyEnv 0) ∧
+    (∀ mu m pr a b, (toyEnv 0).curvOf mu m pr a = (toyEnv 0).curvOf mu m pr b) :=
+  ⟨toy_startIndependent 0, fun _ _ _ _ _ => rfl⟩
+
+/-- D-C09-goffset: in the shipped code the cached path of `_getCompositionSetsEq` dropped the
+1 J/mol offset that the fresh path applies, so even with a start-independent solver the second
+identical `curvatureFactor` call (warmed object) solved DIFFERENT conditions than the first. -/
+theorem shipped_goffset_history_dependent :
+    (curvature (toyEnv 0) Cfg.shipped (fresh 0) 5 0 () false none).1 = some 105 ∧
+    (curvature (toyEnv 0) Cfg.shipped
+      (curvature (toyEnv 0) Cfg.shipped (fresh 0) 5 0 () false none).2 5 0 () false none).1 = some 5 := by
+  decide
+
+/-- the repaired code on the same two calls -/
+theorem fixed_goffset_same :
+    (curvature (toyEnv 0) Cfg.fixed (fresh 0) 5 0 () false none).1 = some 105 ∧
+    (curvature (toyEnv 0) Cfg.fixed
+      (curvature (toyEnv 0) Cfg.fixed (fresh 0) 5 0 () false none).2 5 0 () false none).1 = some 105 := by
+  decide
+
+/-- finding `curvature-fallback` (kept in the code, by design): where the equilibrium at the
+arguments gives no two-phase result, a new object answers `None` but an object that holds a cached
+equilibrium answers with the output of its PREVIOUS query. -/
+theorem curvature_fallback_depends_on_history :
+    (curvature (toyEnv 101) Cfg.fixed (fresh 0) 1 0 () false none).1 = none ∧
+    (curvature (toyEnv 101) Cfg.fixed
+      (curvature (toyEnv 101) Cfg.fixed (fresh 0) 5 0 () false none).2 1 0 () false none).1 = some 105 := by
+  decide
+
+end witnesses
+
 end KawinV.Props.C09
